@@ -41,7 +41,7 @@ PROP = dict(
     theorems=['Fit.C19.C19_columns', 'Fit.C19.C19_columns_trim', 'Fit.C19.C19_tables', 'Fit.C19.C19_field_roundtrip_raw', 'Fit.C19.C19_raw_roundtrip_partial', 'Fit.C19.C19_scaled_roundtrip', 'Fit.C19.C19_sequences_partial',
               'Fit.C19.C19_scalar_roundtrip_raw', 'Fit.C19.C19_scaled_roundtrip_profile', 'Fit.C19.C19_array_roundtrip', 'Fit.C19.C19_field_roundtrip_value',
               'Fit.C19.C19_unknown_field_roundtrip', 'Fit.C19.C19_dev_field_roundtrip', 'Fit.C19.C19_dev_float_scale_fixed', 'Fit.C19.C19_subfield_roundtrip', 'Fit.C19.C19_removes_expansion_targets',
-              'Fit.C19.C19_roundtrip_partial', 'Fit.C19.C19_roundtrip', 'Fit.C19.C19_roundtrip_convert', 'Fit.C19.C19_sequences',
+              'Fit.C19.C19_roundtrip_partial', 'Fit.C19.C19_int64_fixed', 'Fit.C19.C19_roundtrip', 'Fit.C19.C19_roundtrip_convert', 'Fit.C19.C19_sequences',
               'Fit.C19.C19_copy_all_lines', 'Fit.C19.C19_copy_long_line_fixed',
               'Fit.C19.C19_int_text_roundtrip', 'Fit.C19.C19_csv_quoting_roundtrip', 'Fit.C19.C19_lines_roundtrip', 'Fit.C19.C19_columns_text', 'Fit.C19.C19_roundtrip_text'],
     families=[dict(name='csv', prop=True), dict(name='csvtext', prop=True)],
